@@ -77,6 +77,17 @@ class SBool(Sym):
         return "SBool(%s)" % self.t
 
 
+class TInt(Sym):
+    """instance of a user subclass of int (buidl.timelock.Locktime / Sequence): class tag + int value"""
+    __slots__ = ("cls", "val")
+
+    def __init__(self, cls, val):
+        self.cls, self.val = cls, val
+
+    def __repr__(self):
+        return "TInt(%s,%r)" % (self.cls.__name__, self.val)
+
+
 class IB:
     __slots__ = ("t", "w", "end")
 
